@@ -47,6 +47,7 @@ func TestC12(t *testing.T) {
 	rec := kit.Get("C12")
 	rapid.Check(t, func(t *rapid.T) {
 		o := genOptions(t, rec)
+		genExtraOptions(t, &o, false)
 		plan := historyPlan{MinBatches: 1, MaxBatches: 10, Interleave: true, Knobs: gen.InDomain()}
 		long := pct(t, "long", 12)
 		if long {
